@@ -53,6 +53,8 @@ var c10Exprs = []string{
 	"$xs[0]", "$a['x']", "length($xs)", "G_X", "app.G_X", "['x': $x]['x']", "['k': 1, 'j': $y, 'x': 2]['k']",
 	// identifiers that differ only in case or in word boundaries
 	"$userName", "$username", "$a.userName", "$b.username", "$user_name", "$a.USERNAME", "$xY", "$xy", "$x2y", "$a.x2Y",
+	// the same reference under different print directives: distinct placeholders of one base name
+	"$x|escapeUri", "$x|noAutoescape", "$x|id", "$a.x|escapeUri", "$y|truncate:5", "$y|truncate:6",
 }
 
 var c10Tags = []string{"<b>", "</b>", "<br/>", "<a href=\"u\">", "<a class=\"k\">", "</a>", "<i>", "<img src=\"s\"/>", "<a href=\"u\">", "<span>", "</span>", "<a_1>"}
@@ -177,6 +179,13 @@ var nestings = map[string][2]string{
 	"in-log":            {"{log}", "{/log}"},
 	"deep":              {"{if $c10b}{foreach $c10i in $c10l}{switch $c10n}{case 3}{let $c10v}", "{/let}{$c10v}{/switch}{ifempty}z{/foreach}{/if}"},
 	"deep-ifempty":      {"{foreach $c10i in $c10l}x{ifempty}{if $c10b}{for $c10j in range(1)}", "{/for}{/if}{/foreach}"},
+	// comments and whitespace around the message are surrounding code too
+	"after-line-comment":  {"text // a comment\n", ""},
+	"after-block-comment": {"/* a comment */", "/* another */"},
+	"between-comments":    {"x /* c */ // d\n  ", "  // e\n"},
+	"comment-in-param":    {"{call .c10u}// c\n{param p}", "{/param}/* c */{/call}"},
+	"comment-before-let":  {"/* c */{let $c10v}// d\n", "{/let}{$c10v}"},
+	"indented-lines":      {"\n\n      ", "\n      \n"},
 }
 
 var nestingNames = func() []string {
@@ -388,6 +397,23 @@ func c10Exec(cs *c10Case, plan *simrt.MapPlan, u *wk.Unit) *wk.Failure {
 			pl := m.Body[0]
 			pl.Cases = append(append([]msgCase{}, pl.Cases...), msgCase{N: 7, Body: []msgPart{{T: "text", S: "seven"}}})
 			m.Body = []msgPart{pl}
+		case "directive":
+			// one of two equal placeholders gets a print directive: two distinct placeholders now
+			if len(m.Body) > 0 && m.Body[0].T == "plural" {
+				return nil
+			}
+			a, b := m, m
+			a.Body = append(append([]msgPart{}, m.Body...), msgPart{T: "ph", S: "$c10d"}, msgPart{T: "ph", S: "$c10d"})
+			b.Body = append(append([]msgPart{}, m.Body...), msgPart{T: "ph", S: "$c10d"}, msgPart{T: "ph", S: "$c10d|escapeUri"})
+			va, _ := observeMsgCase(bundleFor("app.m", "t", "m.soy", []msgSpec{a}), simrt.CanonicalPlan())
+			vb, _ := observeMsgCase(bundleFor("app.m", "t", "m.soy", []msgSpec{b}), simrt.CanonicalPlan())
+			if !va.Accept || !vb.Accept || len(va.Msgs) != 1 || len(vb.Msgs) != 1 {
+				return &wk.Failure{Class: "invalid-case", Detail: va.Err + vb.Err}
+			}
+			if va.Msgs[0].ID == vb.Msgs[0].ID {
+				return mk("id insensitive to placeholder structure", fmt.Sprintf("a message with one placeholder used twice and the same message with a print directive on the second use (two distinct placeholders) share the id %d (%q vs %q)", va.Msgs[0].ID, va.Msgs[0].PH, vb.Msgs[0].PH))
+			}
+			return nil
 		case "text-pairs":
 			if len(m.Body) > 0 && m.Body[0].T == "plural" {
 				return nil
@@ -642,7 +668,7 @@ func C10(c *wk.Ctx) {
 				u.Counters["check_context_nested"]++
 			}
 			// (e) sensitivity
-			for _, v := range []string{"text", "meaning", "placeholder", "plural-structure", "last-char", "meaning-last-char", "text-pairs"} {
+			for _, v := range []string{"text", "meaning", "placeholder", "plural-structure", "last-char", "meaning-last-char", "text-pairs", "directive"} {
 				do(&c10Case{Msg: m, Check: "sensitivity", Variant: v}, nil)
 			}
 			if mi == 0 {
